@@ -111,7 +111,7 @@ func (e *SpecEnv) resolveType(t *TypeExpr) (types.Type, error) {
 		}
 		return nil, fmt.Errorf("unknown type %s", t.Name)
 	}
-	p := e.vc.g.importedPkg(e.pkg, t.Pkg)
+	p := e.vc.g.importedPkgWith(e.pkg, t.Pkg, t.Name)
 	if p == nil {
 		return nil, fmt.Errorf("unknown package %s in type %s", t.Pkg, t.String())
 	}
@@ -608,7 +608,7 @@ func (e *SpecEnv) sel(n *ESel) (tv, error) {
 	if id, ok := n.X.(*EIdent); ok {
 		if _, isVar := e.vars[id.Name]; !isVar {
 			if _, isLazy := e.lazy[id.Name]; !isLazy {
-				if p := e.vc.g.importedPkg(e.pkg, id.Name); p != nil {
+				if p := e.vc.g.importedPkgWith(e.pkg, id.Name, n.Sel); p != nil {
 					if gv, ok := e.ghostGlobal(p.Path(), n.Sel); ok {
 						return gv, nil
 					}
@@ -866,7 +866,7 @@ func (e *SpecEnv) call(n *ECall) (tv, error) {
 		// pkg.Func(args) or recv.Method(args)
 		if id, ok := s.X.(*EIdent); ok {
 			if _, isVar := e.vars[id.Name]; !isVar {
-				if p := vc.g.importedPkg(e.pkg, id.Name); p != nil {
+				if p := vc.g.importedPkgWith(e.pkg, id.Name, s.Sel); p != nil {
 					if gf := vc.g.ghostFunc(p.Path(), s.Sel); gf != nil {
 						as, err := argv()
 						if err != nil {
